@@ -169,3 +169,174 @@ pub fn drive_digests(out: &mut dyn std::io::Write, family: &str, seed: u64, thor
         }
     }
 }
+
+// ------------------------------------------------------------------------------------------------
+// histories over several live instances (C08, C18)
+
+pub struct Slot {
+    pub h: Box<dyn Hx>,
+    pub alg: String,
+    pub n: usize,
+    pub msg: Vec<u8>, // bookkeeping for the reference digest only; the specification tracks its own ghost message
+}
+
+pub struct HEpisode {
+    pub k: usize,
+    pub slots: std::collections::BTreeMap<usize, Slot>,
+}
+
+fn one_shot(alg: &str, n: usize, msg: &[u8]) -> Vec<u8> {
+    let mut h = make_hash(alg, n);
+    h.upd(msg);
+    h.fin()
+}
+
+impl HEpisode {
+    pub fn start(out: &mut dyn std::io::Write, alg: &str, n: usize, tag: &str) -> HEpisode {
+        let mut e = HEpisode { k: 0, slots: Default::default() };
+        Ev::new(0, "hnew").i("i", 1).s("alg", alg).i("n", out_size(alg, n) as i64).s("tag", tag).s("res", "ok").emit(out);
+        e.slots.insert(1, Slot { h: make_hash(alg, n), alg: alg.to_string(), n, msg: vec![] });
+        e
+    }
+    pub fn add(&mut self, out: &mut dyn std::io::Write, id: usize, alg: &str, n: usize) {
+        self.k += 1;
+        Ev::new(self.k, "hadd").i("i", id as i64).s("alg", alg).i("n", out_size(alg, n) as i64).s("res", "ok").emit(out);
+        self.slots.insert(id, Slot { h: make_hash(alg, n), alg: alg.to_string(), n, msg: vec![] });
+    }
+    pub fn upd(&mut self, out: &mut dyn std::io::Write, id: usize, data: &[u8]) {
+        self.k += 1;
+        let s = self.slots.get_mut(&id).expect("slot");
+        let r = guarded(|| s.h.upd(data));
+        s.msg.extend_from_slice(data);
+        let res = match r {
+            Ok(()) => "ok".to_string(),
+            Err(p) => format!("panic:{}", sanitize(&p)),
+        };
+        Ev::new(self.k, "upd").i("i", id as i64).bytes("data", data).s("res", &res).emit(out);
+    }
+    pub fn clone_to(&mut self, out: &mut dyn std::io::Write, src: usize, dst: usize) {
+        self.k += 1;
+        let s = self.slots.get(&src).expect("slot");
+        let c = Slot { h: s.h.cl(), alg: s.alg.clone(), n: s.n, msg: s.msg.clone() };
+        self.slots.insert(dst, c);
+        Ev::new(self.k, "clone").i("i", src as i64).i("j", dst as i64).s("res", "ok").emit(out);
+    }
+    pub fn reset(&mut self, out: &mut dyn std::io::Write, id: usize) {
+        self.k += 1;
+        let s = self.slots.get_mut(&id).expect("slot");
+        let r = guarded(|| s.h.rst());
+        s.msg.clear();
+        let res = match r {
+            Ok(()) => "ok".to_string(),
+            Err(p) => format!("panic:{}", sanitize(&p)),
+        };
+        Ev::new(self.k, "reset").i("i", id as i64).s("res", &res).emit(out);
+    }
+    fn reference(&mut self, out: &mut dyn std::io::Write, id: usize) {
+        self.k += 1;
+        let s = self.slots.get(&id).expect("slot");
+        let o = guarded(|| one_shot(&s.alg, s.n, &s.msg)).unwrap_or_default();
+        Ev::new(self.k, "ref").s("alg", &s.alg).i("n", out_size(&s.alg, s.n) as i64).bytes("msg", &s.msg).bytes("out", &o).s("res", "ok").emit(out);
+    }
+    pub fn finreset(&mut self, out: &mut dyn std::io::Write, id: usize) {
+        self.reference(out, id);
+        self.k += 1;
+        let s = self.slots.get_mut(&id).expect("slot");
+        let r = guarded(|| s.h.fin_reset());
+        s.msg.clear();
+        let (res, o) = match r {
+            Ok(o) => ("ok".to_string(), o),
+            Err(p) => (format!("panic:{}", sanitize(&p)), vec![]),
+        };
+        Ev::new(self.k, "finreset").i("i", id as i64).bytes("out", &o).s("res", &res).emit(out);
+    }
+    pub fn fin(&mut self, out: &mut dyn std::io::Write, id: usize) {
+        self.reference(out, id);
+        self.k += 1;
+        let s = self.slots.remove(&id).expect("slot");
+        let h = s.h;
+        let r = guarded(move || h.fin());
+        let (res, o) = match r {
+            Ok(o) => ("ok".to_string(), o),
+            Err(p) => (format!("panic:{}", sanitize(&p)), vec![]),
+        };
+        Ev::new(self.k, "fin").i("i", id as i64).bytes("out", &o).s("res", &res).emit(out);
+    }
+}
+
+pub const C08_ALGS: [(&str, usize); 15] = [
+    ("Blake224", 0), ("Blake256", 0), ("Blake384", 0), ("Blake512", 0), ("Groestl224", 0), ("Groestl256", 0), ("Groestl384", 0), ("Groestl512", 0),
+    ("Jh224", 0), ("Jh256", 0), ("Jh384", 0), ("Jh512", 0), ("Skein256", 32), ("Skein512", 64), ("Skein1024", 128),
+];
+
+/// Script runner (spec -> impl): lines generated from TLC's state graph of HashReal.
+///   new <alg> <n> <tag> | upd <id> <len> | clone <src> <dst> | reset <id> | finreset <id> | fin <id>
+pub fn run_hash_script(out: &mut dyn std::io::Write, path: &str, seed: u64) {
+    let text = std::fs::read_to_string(path).expect("script");
+    let mut rng = Rng::new(seed ^ 0x5c819);
+    let mut ep: Option<HEpisode> = None;
+    for line in text.lines() {
+        let f: Vec<&str> = line.split_whitespace().collect();
+        if f.is_empty() || f[0].starts_with('#') {
+            continue;
+        }
+        let id = |s: &str| -> usize { s.parse().unwrap() };
+        match f[0] {
+            "new" => ep = Some(HEpisode::start(out, f[1], id(f[2]), f[3])),
+            "upd" => {
+                let d = rng.bytes(id(f[2]));
+                ep.as_mut().unwrap().upd(out, id(f[1]), &d)
+            }
+            "clone" => ep.as_mut().unwrap().clone_to(out, id(f[1]), id(f[2])),
+            "reset" => ep.as_mut().unwrap().reset(out, id(f[1])),
+            "finreset" => ep.as_mut().unwrap().finreset(out, id(f[1])),
+            "fin" => ep.as_mut().unwrap().fin(out, id(f[1])),
+            _ => panic!("harness: script line {}", line),
+        }
+    }
+}
+
+/// Random histories over up to 4 live instances of one type (impl -> spec), all 15 types.
+pub fn drive_hash_histories(out: &mut dyn std::io::Write, seed: u64, thorough: bool) {
+    let mut rng = Rng::new(seed ^ 0xc08);
+    let reps = if thorough { 12 } else { 2 };
+    for &(alg, n) in C08_ALGS.iter() {
+        let b = block_size(alg);
+        let lens = [0usize, 1, 2, b - 1, b, b + 1, 2 * b - 1, 2 * b, 2 * b + 1, 3 * b + 5, b / 2, 7];
+        for _ in 0..reps {
+            let mut ep = HEpisode::start(out, alg, n, "rand");
+            let steps = if thorough { 40 } else { 22 };
+            for _ in 0..steps {
+                let ids: Vec<usize> = ep.slots.keys().cloned().collect();
+                if ids.is_empty() {
+                    break;
+                }
+                let id = *rng.pick(&ids);
+                match rng.below(12) {
+                    0 => {
+                        if ids.len() < 4 {
+                            let dst = (1..=4).find(|d| !ids.contains(d)).unwrap();
+                            ep.clone_to(out, id, dst);
+                        }
+                    }
+                    1 => ep.reset(out, id),
+                    2 => ep.finreset(out, id),
+                    3 => {
+                        if ids.len() > 1 {
+                            ep.fin(out, id)
+                        }
+                    }
+                    _ => {
+                        let l = *rng.pick(&lens);
+                        let d = rng.bytes(l);
+                        ep.upd(out, id, &d);
+                    }
+                }
+            }
+            let ids: Vec<usize> = ep.slots.keys().cloned().collect();
+            for id in ids {
+                ep.fin(out, id);
+            }
+        }
+    }
+}
